@@ -1457,6 +1457,12 @@ func c24JudgeMutant(cs *c24Case, m c24Mutant) c24MutResult {
 			alone = c24ParseStd(txt, false, false)
 		}
 		if alone.Failed() {
+			if g, ok := n.(*ast.GenDecl); ok && g.Tok == token.TYPE && c24TypeParamAmbiguity(g) {
+				// "type T [ id ..." is where go/parser >= go1.18 first tries a type parameter list:
+				// an array length that begins with an identifier may be rejected by its heuristic
+				// although it is an expression of the language without type parameters
+				continue
+			}
 			bad = reflect.TypeOf(n).Elem().Name()
 			break
 		}
@@ -1476,6 +1482,48 @@ func c24JudgeMutant(cs *c24Case, m c24Mutant) c24MutResult {
 		res.What = "go/parser: " + std.Err + "; gomacro's parser reports no error"
 	}
 	return res
+}
+
+// c24TypeParamAmbiguity: a type declaration whose array length begins with an identifier.
+func c24TypeParamAmbiguity(g *ast.GenDecl) bool {
+	for _, sp := range g.Specs {
+		ts, ok := sp.(*ast.TypeSpec)
+		if !ok {
+			continue
+		}
+		at, ok := ts.Type.(*ast.ArrayType)
+		if !ok || at.Len == nil {
+			continue
+		}
+		x := at.Len
+		for {
+			switch y := x.(type) {
+			case *ast.BinaryExpr:
+				x = y.X
+				continue
+			case *ast.IndexExpr:
+				x = y.X
+				continue
+			case *ast.SliceExpr:
+				x = y.X
+				continue
+			case *ast.CallExpr:
+				x = y.Fun
+				continue
+			case *ast.SelectorExpr:
+				x = y.X
+				continue
+			case *ast.TypeAssertExpr:
+				x = y.X
+				continue
+			}
+			break
+		}
+		if _, ok := x.(*ast.Ident); ok {
+			return true
+		}
+	}
+	return false
 }
 
 // c24ErrClass: go/parser's first error message without position, found token and error count.
